@@ -1560,11 +1560,13 @@ def run_sib(cfg, patience=8):
                 graders.append(NumericalGrader())
                 answers.append(box_input(box))
                 continue
-            sample_from = {v: make_sampler('box%d/%s' % (pos, v) if kind != 'rec' else v, cfg['sf'][v]) for v in cfg['sf']}
-            common = dict(variables=list(cfg['variables']), sample_from=sample_from, samples=cfg['samples'],
-                          metric_suffixes=bool(cfg['metric']), user_constants=dict(user_consts))
+            names = list(cfg['sf']) if kind == 'rec' else list(cfg['ind_vars'])
+            sample_from = {v: make_sampler('box%d/%s' % (pos, v) if kind != 'rec' else v, cfg['sf'][v]) for v in names}
+            common = dict(variables=list(cfg['variables']) if kind == 'rec' else list(cfg['ind_vars']), sample_from=sample_from,
+                          samples=cfg['samples'], metric_suffixes=bool(cfg['metric']), user_constants=dict(user_consts))
             if kind == 'rec':
-                graders.append(FormulaGrader(user_functions=dict(USER_FUNCS, rec=make_recorder(len(watch), seen)), **common))
+                graders.append(FormulaGrader(user_functions=dict(USER_FUNCS, rec=make_recorder(len(watch), seen)),
+                                             numbered_vars=list(cfg['numbered']), **common))
                 answers.append('rec(%s)' % ','.join(watch))
             else:
                 cls = FormulaGrader if kind == 'formula' else MatrixGrader
@@ -1617,19 +1619,32 @@ def oracle_sib(cfg, st, out, seen):
     fails = []
     for i, t in enumerate(seen):
         vals = dict(zip(watch, t))
+        base = dict(consts)
+        base.update({key: canon(v) for key, v in vals.items() if not key.startswith('sibling_')})
+        sib_exact = {}
         for j, box in enumerate(cfg['boxes']):
             nm = 'sibling_%d' % (j + 1)
-            if nm not in vals or isinstance(box['input'], str):
+            if box['kind'] not in ('formula', 'matrix', 'numerical'):
                 continue
-            env = dict(consts)
-            env.update({key: canon(v) for key, v in vals.items() if key != nm})
+            try:      # sibling inputs use independent variables and constants only
+                sib_exact[nm] = fr_eval(fromlist(box['input']), {k2: v2 for k2, v2 in base.items() if k2 in cfg['ind_vars'] or k2 in consts})
+            except FormulaError:
+                continue
+            if nm in vals and canon(vals[nm]) != sib_exact[nm]:
+                fails.append('sample %d: %s seen as %r but the input of box %d, %s, gives %r on the other values seen'
+                             % (i, nm, vals[nm], j + 1, box_input(box), sib_exact[nm]))
+        env = dict(base)
+        env.update(sib_exact)
+        for nm, e in cfg['dep_exprs'].items():
+            if nm not in vals:
+                continue
             try:
-                exact = fr_eval(fromlist(box['input']), env)
+                exact = fr_eval(fromlist(e), {k2: v2 for k2, v2 in env.items() if k2 != nm})
             except FormulaError:
                 continue
             if canon(vals[nm]) != exact:
-                fails.append('sample %d: %s seen as %r but the input of box %d, %s, gives %r on the other values seen'
-                             % (i, nm, vals[nm], j + 1, box_input(box), exact))
+                fails.append('sample %d: %s seen as %r but its formula %s gives %r on the sibling inputs and the other values seen'
+                             % (i, nm, vals[nm], render(fromlist(e)), exact))
     return fails
 
 
@@ -1653,7 +1668,7 @@ def gen_sib(rng, tag):
             boxes.append({'kind': kind, 'input': rng.choice(['cat', 'dog'])})
         elif kind == 'numerical':
             e, t, b, d = gen_formula(rng, [], allow_vec=False)
-            boxes.append({'kind': kind, 'input': tolist(e)})
+            boxes.append({'kind': kind, 'input': tolist(e), 'scalar': True})
         else:
             avail = [(v, ('s', 0), 20 * (len(variables) + 1), 0) for v in variables]
             deps = rng.sample(avail, rng.randint(1, len(avail)))
@@ -1661,12 +1676,44 @@ def gen_sib(rng, tag):
                 if rng.random() < 0.4:
                     deps.append((c, ('s', 0), 4, 1))
             e, t, b, d = gen_formula(rng, deps, allow_vec=(kind == 'matrix'), extras=extras)
-            boxes.append({'kind': kind, 'input': tolist(e)})
+            boxes.append({'kind': kind, 'input': tolist(e), 'scalar': t[0] == 's'})
     sibs = ['sibling_%d' % (pos + 1) for pos, b in enumerate(boxes) if b['kind'] in ('formula', 'matrix', 'numerical')]
-    watch = list(variables) + sibs + [c for c in user_consts]
+    # DependentSamplers of the recording grader that reference siblings: on a plain variable and/or on a numbered head
+    ind_vars = list(variables)
+    all_vars, numbered, instances, dep_exprs = list(variables), [], [], {}
+    scalar_sibs = ['sibling_%d' % (pos + 1) for pos, b in enumerate(boxes) if b.get('scalar') and b['kind'] != 'rec']
+
+    def sib_formula():
+        sb = ('var', rng.choice(scalar_sibs))
+        return tolist(rng.choice([('add', sb, ('num', rng.randrange(0, 6))), ('neg', sb),
+                                  ('sub', ('var', rng.choice(ind_vars)), sb), ('add', sb, ('var', rng.choice(ind_vars)))]))
+    if scalar_sibs and rng.random() < 0.6:
+        mode = rng.choice(['plain', 'head', 'both'])
+        if mode in ('plain', 'both'):
+            sf['d'] = ['dep', sib_formula()]
+            all_vars.append('d')
+            dep_exprs['d'] = sf['d'][1]
+        if mode in ('head', 'both'):
+            sf['n'] = ['dep', sib_formula()]
+            numbered = ['n']
+            instances = ['n_{%s}' % i for i in rng.sample(L2_INDICES, rng.randint(1, 2))]
+            for nm in instances:
+                dep_exprs[nm] = sf['n'][1]
+    referenced = set()
+    for e in dep_exprs.values():
+        referenced |= {v for v in expr_vars(fromlist(e)) if v.startswith('sibling_')}
+    # siblings referenced by a sampler are mentioned in the answer only sometimes; the others always (they matter only then)
+    mentioned = [x for x in sibs if x not in referenced or rng.random() < 0.4]
+    watch = all_vars + instances + mentioned + [c for c in user_consts]
     rng.shuffle(watch)
-    return {'level': 'SIB', 'variables': variables, 'sf': sf, 'boxes': boxes, 'watch': watch, 'metric': metric,
-            'user_consts': user_consts, 'samples': rng.choice([1, 2])}
+    return {'level': 'SIB', 'variables': all_vars, 'ind_vars': ind_vars, 'numbered': numbered, 'dep_exprs': dep_exprs,
+            'sf': sf, 'boxes': boxes, 'watch': watch, 'metric': metric, 'user_consts': user_consts, 'samples': rng.choice([1, 2])}
+
+
+def instance_first(listed_symbols, used, variables):
+    """the names used in the expressions, numbered instances first in the order the implementation listed them"""
+    listed = [x for x in listed_symbols if x in used and x not in variables and not x.startswith('sibling_')]
+    return listed + sorted(set(used) - set(listed))
 
 
 def sib_cases(ctx, res, rng, dist, terms, metas):
@@ -1683,8 +1730,13 @@ def sib_cases(ctx, res, rng, dist, terms, metas):
         dist['sibling lists with a non-formula box'] = dist.get('sibling lists with a non-formula box', 0) + \
             (1 if any(b['kind'] == 'string' for b in boxes) else 0)
         # correspondence: the gen_symbols_samples call made for the recording box
+        needed = set(watch)
+        for e in cfg['dep_exprs'].values():
+            needed |= expr_vars(fromlist(e))
         sibs = [('sibling_%d' % (pos + 1), fromlist(b['input'])) for pos, b in enumerate(boxes)
-                if b['kind'] in ('formula', 'matrix', 'numerical') and 'sibling_%d' % (pos + 1) in watch]
+                if b['kind'] in ('formula', 'matrix', 'numerical') and 'sibling_%d' % (pos + 1) in needed]
+        dist['sibling lists with a sampler that references a sibling'] = dist.get('sibling lists with a sampler that references a sibling', 0) + \
+            (1 if cfg['dep_exprs'] else 0)
         rec_calls = [c for c in calls if set(c['symbols']) >= set(variables) and
                      (any(x.startswith('sibling_') for x in c['symbols']) or not sibs) and c['log'] and
                      all(tag in variables for tag, _ in c['log'])]
@@ -1697,14 +1749,15 @@ def sib_cases(ctx, res, rng, dist, terms, metas):
         for _, e in sibs:
             used |= expr_vars(e)
         o = obs_term('exc', call['exc'], cfg['samples']) if call['exc'] is not None else obs_term('ret', call['out'], cfg['samples'])
-        d = draws_term(call['log'], len(variables), cfg['samples'])
+        d = draws_term(call['log'], len(cfg['ind_vars']), cfg['samples'])
         if o is None or d is None:
             continue
         sa = seen_term(watch, seen) if st == 'ret' and len(seen) == cfg['samples'] else '[]'
         if sa is None:
             continue
-        terms.append('(([%s], [], [%s], [%s], %s, %s, %s, %s, [%s], %s), ([%s], %s, []))' % (
-            '; '.join('"%s"' % v for v in variables), '; '.join('"%s"' % u for u in sorted(used)),
+        terms.append('(([%s], [%s], [%s], [%s], %s, %s, %s, %s, [%s], %s), ([%s], %s, []))' % (
+            '; '.join('"%s"' % v for v in variables), '; '.join('"%s"' % h for h in cfg['numbered']),
+            '; '.join('"%s"' % u for u in instance_first(call['symbols'], used, variables)),
             '; '.join('("%s", %s)' % (k, coq_expr(e)) for k, e in sibs), sf_term(sf), consts_term(sib_consts(cfg)), d,
             core.qlit(0), '; '.join('"%s"' % x for x in call['symbols']), o, '; '.join('"%s"' % k for k, _ in sibs), sa))
         metas.append({'variables': variables, 'boxes': [(b['kind'], box_input(b)) for b in boxes], 'symbols_seen': call['symbols']})
